@@ -50,7 +50,10 @@ def int_for(rng, fname, kw):
     small = [0, 1, 2, 3, 5, 10, 16, 36, 37, -1, -2, 64, 100, 255, 1000]
     if kw in ("base",):
         return rng.choice([2, 8, 10, 16, 36, 0, 1, 37, -1, 62, gv.I64_MAX, gv.I64_MIN])
-    if kw in ("length", "chunk_size", "buf_size", "max_depth", "limit", "count", "plus_parts",
+    if kw == "buf_size":
+        # the decode buffer is allocated up front: keep it below the worker's memory limit
+        return rng.choice([0, 1, 16, 1000, 65536, 1 << 20, 1 << 24, -1, -5, gv.I64_MIN])
+    if kw in ("length", "chunk_size", "max_depth", "limit", "count", "plus_parts",
               "rate_limit_secs", "precision", "scale", "from", "start", "end", "protocol",
               "source_port", "destination_port", "seed", "compression_level"):
         if r < 0.6:
@@ -110,7 +113,9 @@ def value_for(rng, fname, kw, kind, depth=2):
         return rng.choice(gv.REGEXES)
     if kind == "array":
         if kw in ("path",):
-            return [rng.choice([b"a", b"b", 0, -1, 1, b"", gv.I64_MIN, 2.5, None]) for _ in range(rng.randint(0, 3))]
+            # indices stay small: writing at index +/-2^31.. pads that many elements by design
+            # (memory exhaustion, out of scope)
+            return [rng.choice([b"a", b"b", 0, -1, 1, b"", 7, -9, 300, 2.5, None]) for _ in range(rng.randint(0, 3))]
         if kw in ("patterns", "substrings", "fields_ordering", "except", "keys", "filters", "alias_sources"):
             return [bytes_for(rng, fname, "pattern" if kw == "patterns" else kw) for _ in range(rng.randint(0, 3))]
         return [gv.rand_value(rng, depth - 1, maxlen=3) for _ in range(rng.randint(0, 4))]
